@@ -494,3 +494,156 @@ Proof.
 Qed.
 
 End Stages.
+
+(* ================= path start ================= *)
+Section PathStart.
+Variable dbg : bool.
+
+Lemma slice_empty_at s : slice_o s (nlen s) (nlen s) = Some [].
+Proof.
+  rewrite slice_o_some by lia. rewrite N.sub_diag. reflexivity.
+Qed.
+
+(* nothing but tab / newline left *)
+Lemma loop_all_tnl l : forall ser hh, ntnl l = [] ->
+  parse_path_loop dbg CUrlParser STNotSpecial (nlen ser) l ser (nlen ser) [] hh = POk (ser, hh, []).
+Proof.
+  induction l as [|c r IH]; intros ser hh Hl.
+  - cbn [parse_path_loop push_pending]. rewrite (finish_plain dbg (nlen ser) ser (nlen ser) false hh []);
+      [reflexivity | apply slice_empty_at | reflexivity | reflexivity].
+  - destruct (is_tnl c) eqn:Et; [|rewrite ntnl_cons in Hl by exact Et; discriminate Hl].
+    rewrite ntnl_cons_tnl in Hl by exact Et. rewrite loop_cons_tnl by exact Et. cbn [push_pending]. apply IH. exact Hl.
+Qed.
+
+(* the '/' that starts the path *)
+Lemma loop_first_slash l : forall ser hh t, usv_list l -> ntnl l = 47 :: t ->
+  exists r, parse_path_loop dbg CUrlParser STNotSpecial (nlen ser) l ser (nlen ser) [] hh
+            = parse_path_loop dbg CUrlParser STNotSpecial (nlen ser) r (ser ++ [47]) (nlen (ser ++ [47])) [] hh
+            /\ ntnl r = t /\ usv_list r.
+Proof.
+  induction l as [|c r IH]; intros ser hh t Hu Hl; [discriminate Hl|].
+  apply usv_cons in Hu. destruct Hu as [Huc Hur].
+  destruct (is_tnl c) eqn:Et.
+  - rewrite ntnl_cons_tnl in Hl by exact Et. rewrite loop_cons_tnl by exact Et. cbn [push_pending].
+    exact (IH ser hh t Hur Hl).
+  - rewrite ntnl_cons in Hl by exact Et. inversion Hl; subst c. exists r.
+    split; [|split; [reflexivity | exact Hur]].
+    rewrite loop_cons_slash. cbn [push_pending].
+    rewrite (finish_plain dbg (nlen ser) (ser ++ [47]) (nlen ser) true hh []); [reflexivity | | reflexivity | reflexivity].
+    rewrite nlen_app. replace (nlen ser + nlen [47] - 1) with (nlen ser) by (unfold nlen; cbn [length]; lia).
+    rewrite slice_o_some by (rewrite ?nlen_app; lia). rewrite N.sub_diag. reflexivity.
+Qed.
+
+Lemma set_path_same u P : su_path u = SPList P -> set_path u (SPList P) = u.
+Proof. destruct u as [x1 x2 x3 x4 x5 x6 x7 x8]. cbn. intros ->. reflexivity. Qed.
+
+Lemma pqf_q_drop st l : pqf_q st (drop_while is_tnl l) = pqf_q st l.
+Proof. unfold pqf_q. rewrite inp_next_drop. reflexivity. Qed.
+Lemma pqf_f_drop l : pqf_f (drop_while is_tnl l) = pqf_f l.
+Proof. unfold pqf_f. rewrite inp_next_drop. reflexivity. Qed.
+
+Lemma ntnl_drop l : ntnl (drop_while is_tnl l) = ntnl l.
+Proof.
+  induction l as [|c r IH]; [reflexivity|]. cbn [drop_while]. destruct (is_tnl c) eqn:E; [|reflexivity].
+  rewrite ntnl_cons_tnl by exact E. exact IH.
+Qed.
+
+Lemma drop_head l : match drop_while is_tnl l with [] => True | c :: _ => is_tnl c = false end.
+Proof. induction l as [|c r IH]; [exact I|]. cbn [drop_while]. destruct (is_tnl c) eqn:E; [exact IH | exact E]. Qed.
+
+Lemma usv_drop l : usv_list l -> usv_list (drop_while is_tnl l).
+Proof.
+  induction l as [|c r IH]; intros H; [exact H|]. cbn [drop_while]. destruct (is_tnl c); [|exact H].
+  apply usv_cons in H. apply IH. tauto.
+Qed.
+
+Theorem path_start_spec rem ser hh : usv_list rem -> starts_ae (ntnl rem) = true ->
+  (match ntnl rem with c :: r => if c =? 47 then spath_ok r [] [] = true else True | [] => True end) ->
+  exists segs rest,
+    parse_path_start dbg CUrlParser STNotSpecial hh ser rem = POk (ser ++ flat_map (fun s => 47 :: s) segs, hh, rest)
+    /\ usv_list rest
+    /\ forallb (fun c => negb ((c =? 63) || (c =? 35))) (flat_map (fun s => 47 :: s) segs) = true
+    /\ forallb no_slash segs = true
+    /\ (forall u, su_path u = SPList [] -> is_special u = false -> su_query u = None -> su_fragment u = None ->
+          sauth_tail u (ntnl rem) = set_fragment (set_query (set_path u (SPList segs)) (pqf_q STNotSpecial rest)) (pqf_f rest)).
+Proof.
+  intros Hu Hae Hok. unfold parse_path_start, inp_split_first. cbn [st_is_special].
+  destruct (ntnl rem) as [|c t] eqn:Ent.
+  - (* nothing left *)
+    rewrite (inp_next_none rem Ent). unfold parse_path. rewrite (loop_all_tnl rem ser hh Ent).
+    exists [], []. cbn [flat_map]. rewrite app_nil_r. split; [reflexivity|]. split; [constructor|].
+    split; [reflexivity|]. split; [reflexivity|].
+    intros u HP Hns Hq Hf. cbn [sauth_tail]. rewrite (set_path_same u [] HP).
+    destruct u as [x1 x2 x3 x4 x5 x6 x7 x8]. cbn in *. subst. reflexivity.
+  - destruct (inp_next_some rem c t Ent) as (r' & En & Hr' & Et). rewrite En.
+    pose proof (inp_next_usv rem c r' Hu En) as Hur'.
+    cbn [starts_ae] in Hae. destruct (c =? 47) eqn:E47.
+    + (* a path *)
+      apply N.eqb_eq in E47. subst c. cbn [N.eqb Pos.eqb orb]. unfold parse_path.
+      destruct (loop_first_slash rem ser hh t Hu Ent) as (r2 & Eloop & Hr2 & Hur2). rewrite Eloop.
+      assert (pend_ok []) as Hp0 by (split; [constructor | reflexivity]).
+      assert (Bs ser [] = ser ++ [47]) as EB by (unfold Bs; cbn; rewrite !app_nil_r; reflexivity).
+      rewrite <- Hr2 in Hok.
+      destruct (loop_exact ser dbg r2 [] [] [] hh Hur2 Hp0 eq_refl eq_refl Hok) as (segs & last & Hloop & Hfst & Hsnd).
+      cbn [app rev utf8_encode flat_map encode] in Hfst, Hsnd.
+      pose proof Hloop as Hloop2. rewrite app_nil_r, EB in Hloop2. rewrite Hloop2.
+      destruct (loop_inv ser dbg r2 [] [] [] hh _ _ _ Hur2 Hp0 eq_refl eq_refl eq_refl Hloop)
+        as (segs1 & last1 & Es1 & Gs & Gl & _).
+      assert (segs1 = segs /\ last1 = last) as [-> ->].
+      { unfold Bs in Es1. rewrite <- !app_assoc in Es1. apply app_inv_head in Es1. apply app_inv_head in Es1.
+        pose proof (spath_no_slash (ntnl r2) [] [] eq_refl eq_refl) as Hns. rewrite Hfst in Hns.
+        rewrite forallb_app in Hns. apply andb_true_iff in Hns. destruct Hns as [Hns1 Hns2].
+        cbn [forallb] in Hns2. rewrite andb_true_r in Hns2.
+        assert (forallb no_slash segs1 = true /\ no_slash last1 = true) as [Hn1 Hn2].
+        { split.
+          - apply (forallb_impl good_seg); [|exact Gs]. intros s Hs.
+            apply (forallb_impl seg_char); [|apply good_seg_chars; exact Hs].
+            intros x Hx. unfold seg_char in Hx. apply andb_true_iff in Hx. destruct Hx as [Hx _].
+            apply andb_true_iff in Hx. tauto.
+          - apply (forallb_impl seg_char); [|apply good_seg_chars; exact Gl].
+            intros x Hx. unfold seg_char in Hx. apply andb_true_iff in Hx. destruct Hx as [Hx _].
+            apply andb_true_iff in Hx. tauto. }
+        clear - Es1 Hns1 Hns2 Hn1 Hn2. revert segs1 Es1 Hn1.
+        induction segs as [|s segs IH]; intros [|s1 segs1] E Hn1.
+        - cbn in E. split; [reflexivity | symmetry; exact E].
+        - exfalso. cbn [segs_text map concat app] in E. subst last. unfold no_slash in Hns2.
+          rewrite <- app_assoc in Hns2. rewrite !forallb_app in Hns2. cbn [forallb N.eqb Pos.eqb negb andb] in Hns2.
+          rewrite andb_false_r in Hns2. discriminate.
+        - exfalso. cbn [segs_text map concat app] in E. subst last1. unfold no_slash in Hn2.
+          rewrite <- app_assoc in Hn2. rewrite !forallb_app in Hn2. cbn [forallb N.eqb Pos.eqb negb andb] in Hn2.
+          rewrite andb_false_r in Hn2. discriminate.
+        - cbn [forallb] in Hns1, Hn1. apply andb_true_iff in Hns1, Hn1. destruct Hns1 as [A1 A2]. destruct Hn1 as [B1 B2].
+          unfold segs_text in E. cbn [map concat] in E. fold (segs_text segs) in E. fold (segs_text segs1) in E.
+          rewrite <- !app_assoc in E.
+          assert (s = s1 /\ segs_text segs ++ last = segs_text segs1 ++ last1) as [-> E'].
+          { clear - E A1 B1. revert s1 E B1. induction s as [|a s IHs]; intros [|b s1] E B1.
+            - cbn in E. inversion E. split; reflexivity.
+            - exfalso. cbn in E. inversion E; subst. unfold no_slash in B1. cbn in B1. discriminate.
+            - exfalso. cbn in E. inversion E; subst. unfold no_slash in A1. cbn in A1. discriminate.
+            - cbn in E. inversion E; subst. unfold no_slash in A1, B1. cbn [forallb] in A1, B1.
+              apply andb_true_iff in A1, B1. destruct (IHs (proj2 A1) s1 H1 (proj2 B1)) as [-> K]. split; [reflexivity | exact K]. }
+          destruct (IH A2 segs1 E' B2) as [-> ->]. split; reflexivity. }
+      exists (segs ++ [last]), (cbb_rest r2).
+      split.
+      { f_equal. f_equal. f_equal. rewrite path_text_flat. unfold Bs, path_text. rewrite <- !app_assoc. reflexivity. }
+      split; [apply usv_cbb_rest; exact Hur2|].
+      split; [rewrite path_text_flat; apply path_text_no_qh; assumption|].
+      split; [rewrite <- Hfst; apply spath_no_slash; reflexivity|].
+      intros u HP Hnsu Hq Hf. cbn [sauth_tail]. replace (47 =? 47) with true by reflexivity.
+      rewrite <- Hr2. rewrite Hfst, Hsnd.
+      apply tail_url_ns; [exact Hnsu | exact Hq | exact Hf | apply cbb_rest_head].
+    + (* '?' or '#': no path *)
+      assert ((c =? 63) || (c =? 35) = true) as Eqh by (unfold is_ae in Hae; rewrite E47 in Hae; exact Hae).
+      rewrite Eqh. exists [], rem. cbn [flat_map]. rewrite app_nil_r.
+      split; [reflexivity|].
+      split; [exact Hu|]. split; [reflexivity|]. split; [reflexivity|].
+      intros u HP Hnsu Hq Hf. cbn [sauth_tail]. rewrite E47. rewrite (set_path_same u [] HP).
+      rewrite <- (pqf_q_drop STNotSpecial rem), <- (pqf_f_drop rem).
+      rewrite <- Ent, <- (ntnl_drop rem).
+      apply tail_url_ns; [exact Hnsu | exact Hq | exact Hf|].
+      pose proof (drop_head rem) as Hd. pose proof (ntnl_drop rem) as Hn. rewrite Ent in Hn.
+      destruct (drop_while is_tnl rem) as [|d dr]; [exact I|]. rewrite ntnl_cons in Hn by exact Hd.
+      inversion Hn; subst d. split; [exact Eqh | exact Hd].
+Qed.
+
+End PathStart.
